@@ -78,7 +78,7 @@ def _same(a, b):
 def run(case, ctx, res):
     cc = ctx.cc
     env = env_of(ctx)
-    mapping = {"$FX": ctx.sb.fx}
+    mapping = {"$FX": ctx.sb.fx, "$CWD": ctx.sb.root}
     f = spec.resolve(case["field"], mapping)
     values = spec.resolve(case["values"], mapping)
     root = {"kind": "schema", "key": "", "fields": [f]}
